@@ -1,15 +1,30 @@
 /-
 # C05 — Element proofs survive every apply/revert; roots equal the true Merkle forest
 
+Model: `SiaModel/Merkle/Accumulator.lean` (function-by-function transliteration of
+consensus/merkle.go); specification: `SiaModel/Merkle/Forest.lean` (the naive forest).
+`acc.toForest = forestOf ls` says that the accumulator's leaf count and roots are those of
+the naive forest over the list `ls` of all leaf hashes ever added (spent or revised ones
+rewritten in place: `writeLeaves`), `path ls j` is the naive Merkle path of leaf `j`.
 
-Model: `SiaModel/Merkle/Accumulator.lean` (transliteration of consensus/merkle.go);
-specification: `SiaModel/Merkle/Forest.lean` (naive forest). `acc.toForest = forestOf ls`
-says that the accumulator's leaf count and roots are those of the naive forest over
-the list `ls` of all leaf hashes ever added (spent ones rewritten in place).
+Theorems (all for ARBITRARY leaf count — every bit pattern below 2^64 —, arbitrary set of
+rewritten leaves, arbitrary number of added leaves; none needs a hash assumption):
+
+  c05_addLeaves_forest, c05_addLeaves_growth   addLeaves = naive forest of ls ++ new
+  c05_updateLeaves_forest                      updateLeaves/recompute = naive forest of the rewritten list
+  c05_applyBlock_forest                        their composition
+  c05_tracked_proof_apply (+ _verifies)        any holder's proof -> naive path (verifies, current spent flag)
+  c05_tracked_proof_revert                     the same across revertBlock
+  c05_apply_revert_roundtrip                   apply then revert restores every proof
+  c05_history                                  induction over any interleaving of applies and reverts
+  tie_mergeHeight, tie_clearBits               the bit helpers are the code translated from merkle.go
+
+The proofs live in `SiaProofs/Lemmas/{Bits,Forest,AddLeaves,UpdateLeaves,UpdateProof,ApplyBlock,Revert}.lean`.
 -/
 import SiaModel.Gen.CodeConsensus
-import SiaProofs.Lemmas.AddLeaves
+import SiaProofs.Lemmas.Revert
 import SiaProofs.Lemmas.TermHash
+import SiaProofs.Props.C04
 namespace C05
 open Sia.ElemAcc
 
@@ -118,82 +133,218 @@ theorem c05_addLeaves_growth (acc : Acc H) (ls : List H) (hacc : acc.toForest = 
   (path_grow (addLeaves_outer acc ls hacc new hnp hsz) (by omega) hj).2
 
 
-/-! ### Tracked proofs across a block that only adds leaves -/
+/-! ### updateLeaves, applyBlock -/
 
-theorem updateGroups_nil (k : Nat) :
-    ∃ f, updateGroups ([] : List (Leaf H)) k = .ok f ∧ ∀ h, f h = [] := by
-  induction k with
-  | zero => exact ⟨_, rfl, fun _ => rfl⟩
-  | succ k ih =>
-    obtain ⟨f, hf, hnil⟩ := ih
-    refine ⟨setFn f k [], ?_, ?_⟩
-    · simp [updateGroups, hf, updateGroup, bind, Except.bind, pure, Except.pure]
-    · intro h; unfold setFn; split <;> simp [hnil]
+/-- **updateLeaves computes the rewritten forest.** If every rewritten leaf carries its
+    current naive path (`UpdOK`: distinct existing positions, `proof = path ls index`),
+    then `updateLeaves` succeeds (no panic), every rewritten leaf ends up — grouped by the
+    height of its tree — with its naive path in the rewritten leaf list
+    `writeLeaves ls updated`, and replacing the roots of the touched trees by
+    `es[0].proofRoot()` gives exactly the naive forest of the rewritten list.
+    Any leaf count, ANY subset of rewritten leaves. -/
+theorem c05_updateLeaves_forest (acc : Acc H) (ls : List H) (hacc : acc.toForest = forestOf ls)
+    (updated : List (Leaf H)) (ok : UpdOK ls updated) (hn : ls.length < 2 ^ 64) :
+    ∃ upd, updateLeaves updated = .ok upd ∧
+      (∀ h l', l' ∈ upd h ↔ ∃ l ∈ updated, l.proof.length = h ∧ l' = withPath (writeLeaves ls updated) l) ∧
+      (acc.withUpdatedRoots upd).toForest = forestOf (writeLeaves ls updated) := by
+  obtain ⟨upd, h1, h2⟩ := updateLeaves_spec ls updated ok hn
+  exact ⟨upd, h1, h2, withUpdatedRoots_forest acc ls hacc updated ok hn upd h2⟩
 
-theorem updateProof_none (idx : Nat) (proof : List H) (updated : Nat → List (Leaf H))
-    (h : updated proof.length = []) : updateProof idx proof updated = .ok proof := by
-  unfold updateProof; rw [h]
+/-- **applyBlock computes the naive forest over all leaves ever added.** After
+    `applyBlock updated added` the leaf count and roots are those of the naive forest of
+    `ls2 = (ls with the rewrites) ++ (the added leaf hashes)`; the added leaves carry their
+    indices and naive paths; the rewritten leaves (as stored in the update) carry their
+    naive paths in `ls2`. -/
+theorem c05_applyBlock_forest (acc : Acc H) (ls : List H) (hacc : acc.toForest = forestOf ls)
+    (updated : List (Leaf H)) (ok : UpdOK ls updated)
+    (added : List (Leaf H)) (hnp : ∀ l ∈ added, l.proof = [])
+    (hsz : ls.length + added.length ≤ unassignedLeafIndex) :
+    let ls2 := writeLeaves ls updated ++ hashesFrom ls.length added
+    ∃ (acc' : Acc H) (u : ApplyUpdate H) (added' : List (Leaf H)), acc.applyBlock updated added = .ok (acc', u, added') ∧
+      acc'.toForest = forestOf ls2 ∧
+      acc'.numLeaves = ls.length + added.length ∧
+      (∀ j l, added'[j]? = some l → l.index = ls.length + j ∧ l.proof = path ls2 (ls.length + j)) ∧
+      (∀ h l', l' ∈ u.updated h ↔ ∃ l ∈ updated, l.proof.length = h ∧ l' = withPath ls2 l) := by
+  intro ls2
+  obtain ⟨acc', u, added', h1, h2, _, _, _, h6, h7, _⟩ := applyBlock_spec acc ls hacc updated ok added hnp hsz
+  refine ⟨acc', u, added', h1, h2, ?_, fun j l hl => ⟨(h6 j l hl).1, (h6 j l hl).2.1⟩, h7⟩
+  have := congrArg Forest.numLeaves h2
+  simp only [Acc.toForest, forestOf] at this
+  rw [this]
+  show (writeLeaves ls updated ++ hashesFrom ls.length added).length = _
+  rw [List.length_append, writeLeaves_length, hashesFrom_length]
 
-theorem unassigned_lt : unassignedLeafIndex < 2 ^ 64 := by unfold unassignedLeafIndex; omega
+/-- **Tracked proofs survive apply.** A client proof equal to `path ls j` — for ANY
+    existing `j`, rewritten by the block or not — becomes `path ls2 j` after
+    `updateElementProof`; a newly added element's proof is already `path ls2 j` and
+    `updateElementProof` leaves it alone. -/
+theorem c05_tracked_proof_apply (acc : Acc H) (ls : List H) (hacc : acc.toForest = forestOf ls)
+    (updated : List (Leaf H)) (ok : UpdOK ls updated)
+    (added : List (Leaf H)) (hnp : ∀ l ∈ added, l.proof = [])
+    (hsz : ls.length + added.length ≤ unassignedLeafIndex) :
+    let ls2 := writeLeaves ls updated ++ hashesFrom ls.length added
+    ∃ (acc' : Acc H) (u : ApplyUpdate H) (added' : List (Leaf H)), acc.applyBlock updated added = .ok (acc', u, added') ∧
+      (∀ j, j < ls.length → u.updateElementProof j (path ls j) = .ok (path ls2 j)) ∧
+      (∀ (j : Nat) (l : Leaf H), added'[j]? = some l → u.updateElementProof l.index l.proof = .ok (path ls2 l.index)) := by
+  intro ls2
+  obtain ⟨acc', u, added', h1, _, h3, _, h5, h6, _, h8⟩ := applyBlock_spec acc ls hacc updated ok added hnp hsz
+  refine ⟨acc', u, added', h1, h8, ?_⟩
+  intro j l hl
+  obtain ⟨a1, a2, _⟩ := h6 j l hl
+  have hj : j < added.length := by
+    have := (List.getElem?_eq_some_iff.1 hl).1
+    rw [← h5]; exact this
+  simp only [ApplyUpdate.updateElementProof, h3, a1]
+  rw [if_neg (by omega), if_pos (by omega), a2]
 
-/-- Full statement (design): a client proof equal to `path ls j`, for ANY `j` (updated or
-    not, old or new), becomes `path ls' j` after `applyBlock updated added` and
-    `updateElementProof`.  Proved here for blocks that only ADD leaves (no existing
-    leaf is rewritten); blocks that rewrite leaves are covered by the correspondence runs
-    (exhaustive for n ≤ 16).  Gap: `updated ≠ []`.
+/-- … and the updated proof verifies against the new accumulator with the element's
+    CURRENT content and spent flag (whatever leaf hash now sits at position `j`). -/
+theorem c05_tracked_proof_apply_verifies [DecidableEq H] (acc : Acc H) (ls : List H) (hacc : acc.toForest = forestOf ls)
+    (updated : List (Leaf H)) (ok : UpdOK ls updated)
+    (added : List (Leaf H)) (hnp : ∀ l ∈ added, l.proof = [])
+    (hsz : ls.length + added.length ≤ unassignedLeafIndex) :
+    let ls2 := writeLeaves ls updated ++ hashesFrom ls.length added
+    ∃ (acc' : Acc H) (u : ApplyUpdate H) (added' : List (Leaf H)), acc.applyBlock updated added = .ok (acc', u, added') ∧
+      ∀ j, j < ls.length → ∀ (e : H) (s : Bool), ls2.getD j default = Hasher.leaf e j s →
+        ∃ p, u.updateElementProof j (path ls j) = .ok p ∧
+          acc'.containsLeaf { elem := e, spent := s, index := j, proof := p } = true := by
+  intro ls2
+  obtain ⟨acc', u, added', h1, h2, _, _, _, _, _, h8⟩ := applyBlock_spec acc ls hacc updated ok added hnp hsz
+  refine ⟨acc', u, added', h1, ?_⟩
+  intro j hj e s hleaf
+  refine ⟨path ls2 j, h8 j hj, ?_⟩
+  apply C04.c04_contains_complete acc' ls2 h2
+  · show j < ls2.length
+    show j < (writeLeaves ls updated ++ hashesFrom ls.length added).length
+    rw [List.length_append, writeLeaves_length]; omega
+  · exact hleaf
+  · rfl
 
-    For any leaf count and any number of added leaves: the new accumulator is the naive
-    forest of all leaves, every holder of an old proof obtains exactly the new naive path
-    (which, by `C04.c04_contains_complete`, verifies), and the added leaves' proofs are
-    their naive paths and are left unchanged by `updateElementProof`. -/
-theorem c05_tracked_proof_apply_partial (acc : Acc H) (ls : List H) (hacc : acc.toForest = forestOf ls)
-    (new : List (Leaf H)) (hnp : ∀ l ∈ new, l.proof = [])
-    (hsz : ls.length + new.length ≤ unassignedLeafIndex) :
-    let ls' := ls ++ hashesFrom ls.length new
-    ∃ acc' u added, acc.applyBlock [] new = .ok (acc', u, added) ∧
-      acc'.toForest = forestOf ls' ∧
-      (∀ j, j < ls.length → u.updateElementProof j (path ls j) = .ok (path ls' j)) ∧
-      (∀ j l, added[j]? = some l → l.index = ls.length + j ∧ l.proof = path ls' (ls.length + j) ∧
-        u.updateElementProof l.index l.proof = .ok l.proof) := by
-  intro ls'
-  have hlt := unassigned_lt
-  have hsz' : ls.length + new.length < 2 ^ 64 := by omega
-  obtain ⟨f, hf, hnil⟩ := updateGroups_nil (H := H) 64
-  have hacc1 : acc.withUpdatedRoots f = acc := by
-    cases acc with
-    | mk t n => simp only [Acc.withUpdatedRoots, Acc.mk.injEq, and_true]; funext h; rw [hnil h]
-  obtain ⟨hn, _⟩ := (toForest_eq_iff acc ls).1 hacc
-  have hmain := c05_addLeaves_forest acc ls hacc new hnp hsz'
-  have hgrow := c05_addLeaves_growth acc ls hacc new hnp hsz'
-  have houter := addLeaves_outer acc ls hacc new hnp hsz'
-  simp only at hmain
-  obtain ⟨m1, m2, m3⟩ := hmain
-  refine ⟨(acc.addLeaves new).1,
-    { updated := extendUpdated f (acc.addLeaves new).2.2,
-      growth := (acc.addLeaves new).2.2, oldNumLeaves := acc.numLeaves, numLeaves := (acc.addLeaves new).1.numLeaves },
-    (acc.addLeaves new).2.1, ?_, m1, ?_, ?_⟩
-  · simp only [Acc.applyBlock, updateLeaves, List.mergeSort_nil, hf, bind, Except.bind, pure, Except.pure, hacc1]
-  · intro j hj
-    have hupd : ∀ h, extendUpdated f (acc.addLeaves new).2.2 h = [] := by
-      intro h; simp [extendUpdated, hnil h]
-    have hnum : (acc.addLeaves new).1.numLeaves = ls.length + new.length := by
-      have := congrArg Forest.numLeaves m1
-      simp only [Acc.toForest, forestOf] at this
-      rw [this]; show ls'.length = _; exact houter.len
-    have hth := (path_grow houter (by omega) hj).1
-    have hmh := mergeHeight_eq (n := ls.length + new.length) (i := j) (by omega)
-    simp only [ApplyUpdate.updateElementProof, hn]
-    rw [if_neg (by omega), if_neg (by omega), updateProof_none _ _ _ (hupd _)]
-    simp only [bind, Except.bind, pure, Except.pure]
-    rw [hnum, hmh, path_length, if_pos (by omega), ← path_length ls j, ← hgrow j hj]
-  · intro j l hl
-    obtain ⟨a1, a2, _, _⟩ := m3 j l hl
-    have hj : j < new.length := by
-      have := (List.getElem?_eq_some_iff.1 hl).1
-      rw [← m2]; exact this
-    refine ⟨a1, a2, ?_⟩
-    simp only [ApplyUpdate.updateElementProof, hn, a1]
-    rw [if_neg (by omega), if_pos (by omega)]
+/-! ### revertBlock -/
+
+/-- **Tracked proofs survive revert.** `ls` is the parent's leaf list, `ls1 ++ ext` the
+    child's (`ls1` = `ls` with the block's rewrites, `ext` = the leaves the block added);
+    `updated` = the block's elements in their parent form with their parent proofs (what
+    `RevertBlock` passes). Every client proof `path (ls1 ++ ext) j` of an element that
+    exists in the parent becomes `path ls j` (truncation at the merge height, then
+    `updateProof`). -/
+theorem c05_tracked_proof_revert (acc : Acc H) (ls : List H) (hnum : acc.numLeaves = ls.length)
+    (updated : List (Leaf H)) (ok : UpdOK ls updated)
+    (hhash : ∀ l ∈ updated, ls.getD l.index default = l.hash)
+    (added : List (Leaf H)) (ls1 ext : List H) (hlen1 : ls1.length = ls.length)
+    (hsame : ∀ q, (∀ l ∈ updated, l.index ≠ q) → ls1.getD q default = ls.getD q default)
+    (hsz : ls.length ≤ unassignedLeafIndex) :
+    ∃ (ru : RevertUpdate H) (added' : List (Leaf H)), acc.revertBlock updated added = .ok (ru, added') ∧
+      ∀ j, j < ls.length → ru.updateElementProof j (path (ls1 ++ ext) j) = .ok (path ls j) := by
+  obtain ⟨ru, added', h1, _, _, h4⟩ := revertBlock_spec acc ls hnum updated ok hhash added ls1 ext hlen1 hsame hsz
+  exact ⟨ru, added', h1, h4⟩
+
+/-- **Apply then revert is the identity on tracked proofs.** `updatedNew` are the block's
+    elements in their new form, `updatedOld` the same positions in their parent form. -/
+theorem c05_apply_revert_roundtrip (acc : Acc H) (ls : List H) (hacc : acc.toForest = forestOf ls)
+    (updatedNew updatedOld : List (Leaf H)) (okN : UpdOK ls updatedNew) (okO : UpdOK ls updatedOld)
+    (hhash : ∀ l ∈ updatedOld, ls.getD l.index default = l.hash)
+    (hidx : ∀ q, (∃ l ∈ updatedNew, l.index = q) → ∃ l ∈ updatedOld, l.index = q)
+    (added : List (Leaf H)) (hnp : ∀ l ∈ added, l.proof = [])
+    (hsz : ls.length + added.length ≤ unassignedLeafIndex) :
+    ∃ (acc' : Acc H) (u : ApplyUpdate H) (added' : List (Leaf H)) (ru : RevertUpdate H) (added'' : List (Leaf H)), acc.applyBlock updatedNew added = .ok (acc', u, added') ∧
+      acc.revertBlock updatedOld added = .ok (ru, added'') ∧
+      ∀ j, j < ls.length →
+        (u.updateElementProof j (path ls j) >>= ru.updateElementProof j) = .ok (path ls j) := by
+  obtain ⟨acc', u, added', h1, _, _, _, _, _, _, h8⟩ := applyBlock_spec acc ls hacc updatedNew okN added hnp hsz
+  have hnum := ((toForest_eq_iff acc ls).1 hacc).1
+  obtain ⟨ru, added'', r1, _, _, r4⟩ := revertBlock_spec acc ls hnum updatedOld okO hhash added
+    (writeLeaves ls updatedNew) (hashesFrom ls.length added) (writeLeaves_length _ _)
+    (by
+      intro q hq
+      apply writeLeaves_get_other
+      intro l hl e
+      obtain ⟨l', hl', e'⟩ := hidx q ⟨l, hl, e⟩
+      exact hq l' hl' e')
+    (by omega)
+  refine ⟨acc', u, added', ru, added'', h1, r1, ?_⟩
+  intro j hj
+  rw [h8 j hj]
+  exact r4 j hj
+
+/-! ### Any interleaving of applies and reverts -/
+
+/-- States reachable by a client that follows a chain: `Hist acc ls π` — the
+    accumulator `acc`, the list `ls` of all leaf hashes ever added on the current branch,
+    and the client's current proof `π j` for every element `j`. Each step is the real
+    `applyBlock` / `revertBlock` followed by `updateElementProof` on every tracked proof;
+    a revert goes from any reachable child state back to any reachable state that is its
+    parent (so reorgs of any depth and re-applications are covered). -/
+inductive Hist : Acc H → List H → (Nat → List H) → Prop where
+  | init (acc : Acc H) (ls : List H) (π : Nat → List H) :
+      acc.toForest = forestOf ls → (∀ j, j < ls.length → π j = path ls j) → Hist acc ls π
+  | apply (acc : Acc H) (ls : List H) (π : Nat → List H)
+      (updated added : List (Leaf H)) (acc' : Acc H) (u : ApplyUpdate H) (added' : List (Leaf H)) (π' : Nat → List H) :
+      Hist acc ls π →
+      updated.Pairwise (fun a b => a.index ≠ b.index) → (∀ l ∈ updated, l.index < ls.length) →
+      (∀ l ∈ updated, l.proof = π l.index) →
+      (∀ l ∈ added, l.proof = []) → ls.length + added.length ≤ unassignedLeafIndex →
+      acc.applyBlock updated added = .ok (acc', u, added') →
+      (∀ j, j < ls.length → u.updateElementProof j (π j) = .ok (π' j)) →
+      (∀ j l, added'[j]? = some l → π' (ls.length + j) = l.proof) →
+      Hist acc' (writeLeaves ls updated ++ hashesFrom ls.length added) π'
+  | revert (accP : Acc H) (lsP : List H) (πP : Nat → List H) (accC : Acc H) (ls1 ext : List H) (πC : Nat → List H)
+      (updated added : List (Leaf H)) (ru : RevertUpdate H) (added' : List (Leaf H)) (π' : Nat → List H) :
+      Hist accP lsP πP → Hist accC (ls1 ++ ext) πC →
+      ls1.length = lsP.length → lsP.length ≤ unassignedLeafIndex →
+      updated.Pairwise (fun a b => a.index ≠ b.index) → (∀ l ∈ updated, l.index < lsP.length) →
+      (∀ l ∈ updated, l.proof = πP l.index) →
+      (∀ l ∈ updated, lsP.getD l.index default = l.hash) →
+      (∀ q, (∀ l ∈ updated, l.index ≠ q) → ls1.getD q default = lsP.getD q default) →
+      accP.revertBlock updated added = .ok (ru, added') →
+      (∀ j, j < lsP.length → ru.updateElementProof j (πC j) = .ok (π' j)) →
+      Hist accP lsP π'
+
+/-- **Induction over any interleaving of applies and reverts.** In every reachable state
+    the accumulator's leaf count and roots are those of the naive forest over all leaves
+    ever added, and every tracked proof is the naive path — hence (C04 completeness)
+    verifies against the current state with the element's current content. -/
+theorem c05_history (acc : Acc H) (ls : List H) (π : Nat → List H) (h : Hist acc ls π) :
+    acc.toForest = forestOf ls ∧ ∀ j, j < ls.length → π j = path ls j := by
+  induction h with
+  | init acc ls π h1 h2 => exact ⟨h1, h2⟩
+  | apply acc ls π updated added acc' u added' π' _ hnd hlt hpr hnp hsz happ hupd hadd ih =>
+    obtain ⟨ih1, ih2⟩ := ih
+    have ok : UpdOK ls updated := ⟨hnd, hlt, fun l hl => by rw [hpr l hl, ih2 _ (hlt l hl)]⟩
+    obtain ⟨acc2, u2, added2, h1, h2, _, _, h5, h6, _, h8⟩ := applyBlock_spec acc ls ih1 updated ok added hnp hsz
+    rw [happ] at h1
+    obtain ⟨rfl, rfl, rfl⟩ : acc' = acc2 ∧ u = u2 ∧ added' = added2 := by
+      have := Except.ok.inj h1
+      exact ⟨congrArg Prod.fst this, congrArg (fun x => x.2.1) this, congrArg (fun x => x.2.2) this⟩
+    refine ⟨h2, ?_⟩
+    intro j hj
+    rw [List.length_append, writeLeaves_length, hashesFrom_length] at hj
+    rcases Nat.lt_or_ge j ls.length with hj' | hj'
+    · have e1 := hupd j hj'
+      rw [ih2 j hj', h8 j hj'] at e1
+      exact (Except.ok.inj e1).symm
+    · have hk : j - ls.length < added'.length := by omega
+      have hget : added'[j - ls.length]? = some added'[j - ls.length] := List.getElem?_eq_getElem hk
+      have e1 := hadd _ _ hget
+      have e2 := (h6 _ _ hget).2.1
+      have : ls.length + (j - ls.length) = j := by omega
+      rw [this] at e1 e2
+      rw [e1, e2]
+  | revert accP lsP πP accC ls1 ext πC updated added ru added' π' _ _ hlen hsz hnd hlt hpr hh hsame hrev hupd ihP ihC =>
+    obtain ⟨p1, p2⟩ := ihP
+    obtain ⟨_, c2⟩ := ihC
+    have ok : UpdOK lsP updated := ⟨hnd, hlt, fun l hl => by rw [hpr l hl, p2 _ (hlt l hl)]⟩
+    have hnum := ((toForest_eq_iff accP lsP).1 p1).1
+    obtain ⟨ru2, added2, r1, _, _, r4⟩ := revertBlock_spec accP lsP hnum updated ok hh added ls1 ext hlen hsame hsz
+    rw [hrev] at r1
+    obtain ⟨rfl, _⟩ : ru = ru2 ∧ added' = added2 := by
+      have := Except.ok.inj r1
+      exact ⟨congrArg Prod.fst this, congrArg Prod.snd this⟩
+    refine ⟨p1, ?_⟩
+    intro j hj
+    have e1 := hupd j hj
+    rw [c2 j (by rw [List.length_append]; omega), r4 j hj] at e1
+    exact (Except.ok.inj e1).symm
 
 end
 
@@ -211,21 +362,51 @@ def ex2 : List (Leaf T) := [freshLeaf 13, freshLeaf 14]
 example : (emptyAcc.addLeaves ex3).1.toForest = forestOf (hashesFrom 0 ex3) :=
   (c05_addLeaves_forest emptyAcc [] emptyAcc_forest ex3 (by decide) (by decide)).1
 
-/-- hence the hypotheses of `c05_tracked_proof_apply_partial` hold for the non-trivial
-    accumulator with three leaves and a block adding two -/
-example : ∃ (acc : Acc T) (ls : List T) (new : List (Leaf T)),
-    acc.toForest = forestOf ls ∧ ls.length = 3 ∧ new.length = 2 ∧ (∀ l ∈ new, l.proof = []) ∧
-    ls.length + new.length ≤ unassignedLeafIndex :=
-  ⟨(emptyAcc.addLeaves ex3).1, hashesFrom 0 ex3, ex2,
-    (c05_addLeaves_forest emptyAcc [] emptyAcc_forest ex3 (by decide) (by decide)).1,
-    by decide, by decide, by decide, by decide⟩
+/-- the 3-leaf accumulator and its leaf list -/
+def acc3 : Acc T := (emptyAcc.addLeaves ex3).1
+def ls3 : List T := hashesFrom 0 ex3
+theorem acc3_forest : acc3.toForest = forestOf ls3 :=
+  (c05_addLeaves_forest emptyAcc [] emptyAcc_forest ex3 (by decide) (by decide)).1
 
-/-- the model evaluated in the kernel: leaf 1's old path, updated across the block that
+/-- a block that spends leaf 1 (its holder's proof attached) and rewrites leaf 2 -/
+def exUpdNew : List (Leaf T) :=
+  [{ elem := .atom 11, spent := true, index := 1, proof := path ls3 1 },
+   { elem := .atom 99, spent := false, index := 2, proof := path ls3 2 }]
+/-- the same elements in their parent form (what `RevertBlock` passes) -/
+def exUpdOld : List (Leaf T) :=
+  [{ elem := .atom 11, spent := false, index := 1, proof := path ls3 1 },
+   { elem := .atom 12, spent := true, index := 2, proof := path ls3 2 }]
+
+theorem exUpdNew_ok : UpdOK ls3 exUpdNew :=
+  ⟨by decide, by decide, by intro l hl; simp [exUpdNew] at hl; rcases hl with rfl | rfl <;> rfl⟩
+theorem exUpdOld_ok : UpdOK ls3 exUpdOld :=
+  ⟨by decide, by decide, by intro l hl; simp [exUpdOld] at hl; rcases hl with rfl | rfl <;> rfl⟩
+
+/-- the hypotheses of `c05_applyBlock_forest` / `c05_tracked_proof_apply` /
+    `c05_apply_revert_roundtrip` hold for a non-trivial instance: three leaves, two of
+    them rewritten, two added -/
+example : ∃ (acc' : Acc T) (u : ApplyUpdate T) (added' : List (Leaf T)) (ru : RevertUpdate T) (added'' : List (Leaf T)),
+    acc3.applyBlock exUpdNew ex2 = .ok (acc', u, added') ∧ acc3.revertBlock exUpdOld ex2 = .ok (ru, added'') ∧
+    ∀ j, j < ls3.length → (u.updateElementProof j (path ls3 j) >>= ru.updateElementProof j) = .ok (path ls3 j) :=
+  c05_apply_revert_roundtrip acc3 ls3 acc3_forest exUpdNew exUpdOld exUpdNew_ok exUpdOld_ok
+    (by decide)
+    (by
+      rintro q ⟨l, hl, rfl⟩
+      simp [exUpdNew] at hl
+      rcases hl with rfl | rfl
+      · exact ⟨_, List.mem_cons_self, rfl⟩
+      · exact ⟨_, List.mem_cons_of_mem _ List.mem_cons_self, rfl⟩)
+    ex2 (by decide) (by decide)
+
+/-- a reachable state in the sense of `Hist` (the initial one), so `c05_history` is not vacuous -/
+example : Hist acc3 ls3 (fun j => path ls3 j) := Hist.init _ _ _ acc3_forest (fun _ _ => rfl)
+
+/-- the model evaluated in the kernel: leaf 1's old path, updated across a block that
     adds two leaves (3 → 5 leaves: the trees of height 0 and 1 merge into one of height 2),
     is the naive path of the 5-leaf forest -/
 example :
-    (match (emptyAcc.addLeaves ex3).1.applyBlock [] ex2 with
-     | .ok (_, u, _) => u.updateElementProof 1 (path (hashesFrom 0 ex3) 1)
+    (match acc3.applyBlock [] ex2 with
+     | .ok (_, u, _) => u.updateElementProof 1 (path ls3 1)
      | .error e => .error e)
     = .ok (path (hashesFrom 0 (ex3 ++ ex2)) 1) := by decide +kernel
 
